@@ -103,7 +103,7 @@ also passes the threshold it is ranked -/
 theorem searchTier_complete {c : Cfg α} {t : Nat} {eps : List (Ep α)} {e : Ep α} (hk : 0 ≤ c.k)
     (hl : ((searchTier c t eps).length : Int) < c.k) (ht : t ≤ 2)
     (he : e ∈ eps) (hv : visible c.owner e = true) (hp : passes c.θ e = true)
-    (hto : tierOk c eps e t = true) : e ∈ searchTier c t eps := by
+    (hto : tierOk c eps e t = true) : ∃ h ∈ searchTier c t eps, h.id = e.id := by
   have hall : e ∈ filterOwner c.owner eps := by
     unfold filterOwner
     cases ho : c.owner with
@@ -117,11 +117,16 @@ theorem searchTier_complete {c : Cfg α} {t : Nat} {eps : List (Ep α)} {e : Ep 
     | nil => rw [hh] at hall; cases hall
     | cons _ _ => rfl
   have key : ∀ pool : List (Ep α), e ∈ pool →
-      ((rankByCosine c.k c.θ pool).length : Int) < c.k → e ∈ rankByCosine c.k c.θ pool := by
+      ((rankByCosine c.k c.θ pool).length : Int) < c.k →
+      ∃ h ∈ rankByCosine c.k c.θ pool, h.id = e.id := by
     intro pool hpool hlen
     unfold rankByCosine at hlen ⊢
-    rw [pySlice_eq_of_short hk hlen, mem_isort, List.mem_filter]
-    exact ⟨hpool, hp⟩
+    rw [pySlice_eq_of_short hk hlen]
+    have hmem : e ∈ isort rankLe (pool.filter (passes c.θ)) := by
+      rw [mem_isort, List.mem_filter]; exact ⟨hpool, hp⟩
+    obtain ⟨h, hh, hid, _⟩ := dedupIdsAux_cover (R := fun _ _ => True) [] _
+      (List.pairwise_of_forall (fun _ _ => trivial)) e hmem (by simp)
+    exact ⟨h, hh, hid⟩
   unfold searchTier at hl ⊢
   simp only [hne, Bool.false_eq_true, if_false] at hl ⊢
   match t, ht with
@@ -203,7 +208,8 @@ theorem clusterPool_nodup {chosen : List Str} {eps : List (Ep α)} (hc : chosen.
 theorem rankByCosine_nodup {k : Int} {θ : α} {pool : List (Ep α)} (h : pool.Nodup) :
     (rankByCosine k θ pool).Nodup := by
   unfold rankByCosine
-  exact (((isort_perm rankLe _).nodup_iff).2 (h.filter _)).sublist (pySlice_prefix k _).sublist
+  exact ((((isort_perm rankLe _).nodup_iff).2 (h.filter _)).sublist (dedupIds_sublist _)).sublist
+    (pySlice_prefix k _).sublist
 
 theorem filterOwner_nodup {o : Option Str} {eps : List (Ep α)} (h : eps.Nodup) :
     (filterOwner o eps).Nodup := by
@@ -239,18 +245,29 @@ theorem ids_nodup_of_subset {eps l : List (Ep α)} (hn : (eps.map (·.id)).Nodup
     (hs : ∀ e ∈ l, e ∈ eps) : (l.map (·.id)).Nodup :=
   List.Nodup.map_on (fun x hx y hy hxy => List.inj_on_of_nodup_map hn (hs x hx) (hs y hy) hxy) hl
 
-/-- COMPLETENESS of retrieval (distinct episode ids, `k ≥ 1`): when fewer than `k` hits are
+theorem searchTier_ids_nodup (c : Cfg α) (t : Nat) (eps : List (Ep α)) :
+    ((searchTier c t eps).map (·.id)).Nodup := by
+  unfold searchTier
+  simp only
+  split
+  · exact List.nodup_nil
+  · match t with
+    | 0 => exact rankByCosine_ids_nodup _ _ _
+    | 1 => exact rankByCosine_ids_nodup _ _ _
+    | 2 => exact rankByCosine_ids_nodup _ _ _
+    | (n + 3) => exact List.nodup_nil
+
+/-- COMPLETENESS of retrieval (`k ≥ 1`; episode ids MAY repeat): when fewer than `k` hits are
 returned, every episode that is visible, has a vector, meets the threshold and the rule of a
-configured tier IS returned. -/
+configured tier is represented by a returned hit with its id. -/
 theorem retrieveCore_complete (c : Cfg α) (tiers : List Nat) (eps : List (Ep α)) (hk : 1 ≤ c.k)
-    (hn : (eps.map (·.id)).Nodup)
     (hl : ((retrieveCore c tiers eps).1.length : Int) < c.k) :
-    ∀ e ∈ eps, qualifies c tiers eps e = true → e ∈ (retrieveCore c tiers eps).1.map (·.1) := by
+    ∀ e ∈ eps, qualifies c tiers eps e = true →
+      ∃ r ∈ (retrieveCore c tiers eps).1.map (·.1), r.id = e.id := by
   intro e he hq
   unfold retrieveCore at hl ⊢
   simp only at hl ⊢
   have hperm := rescore_map_fst c eps (walk c.k (fun t => searchTier c t eps) tiers [] []).1
-  rw [hperm.mem_iff]
   have hlen : ((walk c.k (fun t => searchTier c t eps) tiers [] []).1.length : Int) < c.k := by
     have := hperm.length_eq
     rw [List.length_map] at this
@@ -258,10 +275,8 @@ theorem retrieveCore_complete (c : Cfg α) (tiers : List Nat) (eps : List (Ep α
   simp only [qualifies, Bool.and_eq_true, List.any_eq_true, decide_eq_true_eq] at hq
   obtain ⟨⟨hv, hp⟩, t, ht, ht2, hto⟩ := hq
   have hwc := walk_complete hlen t ht ht2
-  -- the tier's answer is shorter than k
-  have hsn : ((searchTier c t eps).map (·.id)).Nodup :=
-    ids_nodup_of_subset hn (searchTier_nodup c t (List.Nodup.of_map _ hn))
-      (fun x hx => (mem_searchTier hx).1)
+  -- the tier's answer (distinct ids by construction) is shorter than k
+  have hsn := searchTier_ids_nodup c t eps
   have hsub : (searchTier c t eps).map (·.id) ⊆
       (walk c.k (fun t => searchTier c t eps) tiers [] []).1.map (·.id) := by
     intro i hi
@@ -271,14 +286,9 @@ theorem retrieveCore_complete (c : Cfg α) (tiers : List Nat) (eps : List (Ep α
   have hle := (List.subperm_of_subset hsn hsub).length_le
   rw [List.length_map, List.length_map] at hle
   have hshort : ((searchTier c t eps).length : Int) < c.k := by omega
-  have hmem := searchTier_complete (by omega) hshort ht2 he hv hp hto
-  obtain ⟨r, hr, hid⟩ := hwc e hmem
-  have hre : r ∈ eps := by
-    rcases walk_mem hr with h0 | ⟨t', _, _, h3⟩
-    · cases h0
-    · exact (mem_searchTier h3).1
-  have : r = e := List.inj_on_of_nodup_map hn hre he hid
-  rw [← this]; exact hr
+  obtain ⟨h, hh, hid⟩ := searchTier_complete (by omega) hshort ht2 he hv hp hto
+  obtain ⟨r, hr, hid2⟩ := hwc h hh
+  exact ⟨r, hperm.mem_iff.2 hr, hid2.trans hid⟩
 
 end
 
@@ -517,43 +527,54 @@ theorem residual_complete {α : Type} [Num α] (cap : Int) (graphs : List (List 
 section
 variable {α : Type} [Num α] [LinearOrder α] [NumOrd α]
 
-/-- `rank k θ pool` is the best-`k` prefix: a passing pool member that is not returned sorts no
-earlier than every returned one, and `k` were returned. -/
+/-- `rank k θ pool` is the best-`k` prefix of the distinct ids: a passing pool member is represented
+by a returned copy of its id that sorts no later, or `k` entries sorting no later were returned. -/
 theorem rankByCosine_topk {k : Int} {θ : α} {pool : List (Ep α)} {e : Ep α} (hk : 0 ≤ k)
-    (he : e ∈ pool) (hp : passes θ e = true) (hne : e ∉ rankByCosine k θ pool) :
-    ((rankByCosine k θ pool).length : Int) = k
-      ∧ ∀ h ∈ rankByCosine k θ pool, keyLe (rankKey h) (rankKey e) = true := by
-  unfold rankByCosine at hne ⊢
+    (he : e ∈ pool) (hp : passes θ e = true) :
+    (∃ h ∈ rankByCosine k θ pool, h.id = e.id ∧ keyLe (rankKey h) (rankKey e) = true)
+      ∨ (((rankByCosine k θ pool).length : Int) = k
+        ∧ ∀ h ∈ rankByCosine k θ pool, keyLe (rankKey h) (rankKey e) = true) := by
+  unfold rankByCosine
   set sorted := isort rankLe (pool.filter (passes θ)) with hs
   have hmem : e ∈ sorted := by rw [hs, mem_isort, List.mem_filter]; exact ⟨he, hp⟩
   have hpw : sorted.Pairwise (fun a b => keyLe (rankKey a) (rankKey b) = true) :=
     isort_key_pairwise rankKey _
-  unfold pySlice at hne ⊢
-  simp only [hk, if_true] at hne ⊢
-  have hsplit := List.take_append_drop k.toNat sorted
-  have hdrop : e ∈ sorted.drop k.toNat := by
-    rw [← hsplit] at hmem
-    rcases List.mem_append.1 hmem with h | h
-    · exact absurd h hne
-    · exact h
-  constructor
-  · rw [List.length_take]
-    have : k.toNat < sorted.length := by
-      by_contra hc
-      rw [List.drop_of_length_le (by omega)] at hdrop
-      cases hdrop
-    omega
-  · intro h hh
-    rw [← hsplit] at hpw
-    exact (List.pairwise_append.1 hpw).2.2 h hh e hdrop
+  have hrefl : keyLe (rankKey e) (rankKey e) = true := by
+    rcases keyLe_total (rankKey e) (rankKey e) with h | h <;> exact h
+  obtain ⟨h, hh, hid, hle⟩ := dedupIdsAux_cover [] sorted hpw e hmem (by simp)
+  have hle' : keyLe (rankKey h) (rankKey e) = true := by
+    rcases hle with rfl | hle
+    · exact hrefl
+    · exact hle
+  have hdpw : (dedupIds sorted).Pairwise (fun a b => keyLe (rankKey a) (rankKey b) = true) :=
+    hpw.sublist (dedupIds_sublist _)
+  unfold pySlice
+  simp only [hk, if_true]
+  have hsplit := List.take_append_drop k.toNat (dedupIds sorted)
+  have hh' : h ∈ dedupIds sorted := hh
+  rw [← hsplit] at hh'
+  rcases List.mem_append.1 hh' with h1 | h1
+  · left; exact ⟨h, h1, hid, hle'⟩
+  · right
+    constructor
+    · rw [List.length_take]
+      have : k.toNat < (dedupIds sorted).length := by
+        by_contra hc
+        rw [List.drop_of_length_le (by omega)] at h1
+        cases h1
+      omega
+    · intro x hx
+      rw [← hsplit] at hdpw
+      exact keyLe_trans _ _ _ ((List.pairwise_append.1 hdpw).2.2 x hx h h1) hle'
 
 
 /-- One tier's answer is the best-`k` prefix of what qualifies for that tier. -/
 theorem searchTier_topk {c : Cfg α} {t : Nat} {eps : List (Ep α)} {e : Ep α} (hk : 0 ≤ c.k)
     (ht : t ≤ 2) (he : e ∈ eps) (hv : visible c.owner e = true) (hp : passes c.θ e = true)
     (hto : tierOk c eps e t = true) :
-    e ∈ searchTier c t eps ∨ (((searchTier c t eps).length : Int) = c.k
-      ∧ ∀ h ∈ searchTier c t eps, keyLe (rankKey h) (rankKey e) = true) := by
+    (∃ h ∈ searchTier c t eps, h.id = e.id ∧ keyLe (rankKey h) (rankKey e) = true)
+      ∨ (((searchTier c t eps).length : Int) = c.k
+        ∧ ∀ h ∈ searchTier c t eps, keyLe (rankKey h) (rankKey e) = true) := by
   have hall : e ∈ filterOwner c.owner eps := by
     unfold filterOwner
     cases ho : c.owner with
@@ -567,12 +588,10 @@ theorem searchTier_topk {c : Cfg α} {t : Nat} {eps : List (Ep α)} {e : Ep α} 
     | nil => rw [hh] at hall; cases hall
     | cons _ _ => rfl
   have key : ∀ pool : List (Ep α), e ∈ pool →
-      e ∈ rankByCosine c.k c.θ pool ∨ (((rankByCosine c.k c.θ pool).length : Int) = c.k
-        ∧ ∀ h ∈ rankByCosine c.k c.θ pool, keyLe (rankKey h) (rankKey e) = true) := by
-    intro pool hpool
-    by_cases hm : e ∈ rankByCosine c.k c.θ pool
-    · left; exact hm
-    · right; exact rankByCosine_topk hk hpool hp hm
+      (∃ h ∈ rankByCosine c.k c.θ pool, h.id = e.id ∧ keyLe (rankKey h) (rankKey e) = true)
+        ∨ (((rankByCosine c.k c.θ pool).length : Int) = c.k
+          ∧ ∀ h ∈ rankByCosine c.k c.θ pool, keyLe (rankKey h) (rankKey e) = true) :=
+    fun pool hpool => rankByCosine_topk hk hpool hp
   unfold searchTier
   simp only [hne, Bool.false_eq_true, if_false]
   match t, ht with
